@@ -1101,7 +1101,14 @@ def check_c08_order(an):
     return out, {"rounds_checked": rounds_checked, "rounds_with_drops": drop_rounds, "rounds_with_clear_points": clear_rounds}
 
 
+def check_c11_chain(an):
+    """C11 end to end: a recorded sample is floor(ticks * 10^12 / f) of the window the log shows."""
+    vs, info = check_c05_chain(an)
+    return [V("C11", "recorded_sample_conversion", v.msg, v.witness) for v in vs if v.code == "recorded_vs_clock"], {"e2e_samples": info.get("chain_samples", 0)}
+
+
 ALL_CHECKS = {
+    "C11": [check_c11_chain],
     "C01": [check_c01],
     "C02": [check_c02],
     "C03": [check_c03],
